@@ -182,6 +182,43 @@ def bind (m : MsgLen) (k : Key) (s : DsaSig) : Outcome :=
       | _ => .errValue
 end DsaAssert
 
+/-! ## ECDSA signing: `dsa.sign_(msg_hash, prv_key, pub_key=…)` (RFC6979 nonce, lower s: the delegated shape) -/
+inductive PubArg where
+  | none_ | own | foreign | notOnCurve | hybrid | wrongLength
+  deriving DecidableEq, Repr
+def PubArg.all : List PubArg := [.none_, .own, .foreign, .notOnCurve, .hybrid, .wrongLength]
+namespace DsaSign
+/-- common prefix of both arms, before the dispatch: digest size, then `scalar_from_prv_key` -/
+def pre (q : Scalar) (m : MsgLen) : Option Outcome :=
+  match m with
+  | .other => some .errValue
+  | .len32 => if q.isPrvKey then none else some .errValue
+/-- Python arm: `_python_key(pub_key)` parses and proves the key before anything is signed; the check under a key that is
+not the signer's is refused as a ValueError by `_abort_unless_checked` -/
+def py (q : Scalar) (m : MsgLen) (k : PubArg) : Outcome :=
+  match pre q m with
+  | some e => e
+  | none => (match k with | .none_ | .own => .value | _ => .errValue)
+/-- bindings arm: `_sec_from_pub_key` (length, 04 prefix of a 65-byte key), then `dsa.sign(…, pubkey=sec)`; its ValueError
+is "not a public key" when `point_from_pub_key` refuses the key too, and the bindings' own message otherwise -/
+def bind (q : Scalar) (m : MsgLen) (k : PubArg) : Outcome :=
+  match pre q m with
+  | some e => e
+  | none => (match k with | .none_ | .own => .value | _ => .errValue)
+end DsaSign
+
+/-! ## BIP340 signing: `ssa.sign_(msg, prv_key, aux)` — any message length; aux must be 32 bytes -/
+namespace SsaSign
+def py (q : Scalar) (aux : MsgLen) : Outcome :=
+  match aux with
+  | .other => .errValue
+  | .len32 => if q.isPrvKey then .value else .errValue
+def bind (q : Scalar) (aux : MsgLen) : Outcome :=
+  match aux with
+  | .other => .errValue                     -- bytes_from_octets(aux, hf_len) precedes the dispatch
+  | .len32 => if q.isPrvKey then .value else .errValue   -- scalar_from_prv_key inside the delegated branch
+end SsaSign
+
 /-! ## the script engine's wrapper `engine.script.dsa_verify(msg_hash, pub_key, sig)` (DER octets) -/
 namespace EngineDsa
 inductive EKey where
